@@ -47,32 +47,32 @@ func init() {
 var c12Sanctioned = map[string][]string{
 	"guidedremediation/internal/remediation.ConstructPatches": {
 		// end of the patched manifest's requirements
-		"builtin.len(guidedremediation/internal/manifest.Manifest.Requirements(param1.Manifest)) <= (φ:int+1:int)",
+		"range-end: guidedremediation/internal/manifest.Manifest.Requirements(param1.Manifest)",
 		// the requirement has the same version as the original requirement with the same key: not an update
-		"‹guidedremediation/internal/manifest.Manifest.Requirements(param1.Manifest)[(φ:int+1:int)]›.VersionKey.Version == ‹make(map)[guidedremediation/internal/resolution.MakeRequirementKey(‹guidedremediation/internal/manifest.Manifest.Requirements(…)[(φ:int+1:int)]›)]#0›.VersionKey.Version",
+		"guidedremediation/internal/manifest.Manifest.Requirements(param1.Manifest)[ι].VersionKey.Version == make(map)[guidedremediation/internal/resolution.MakeRequirementKey(guidedremediation/internal/manifest.Manifest.Requirements(param1.Manifest)[ι])]#0.VersionKey.Version",
 	},
 	"guidedremediation.choosePatches": {
-		"builtin.len(param0) <= (φ:int+1:int)",
+		"range-end: param0",
 		// incompatible with an already chosen patch: touches a package already changed / fixes a vulnerability already fixed
-		"slices.ContainsFunc(‹param0[(φ:int+1:int)]›.PackageUpdates,*ssa.MakeClosure)",
-		"slices.ContainsFunc(‹param0[(φ:int+1:int)]›.Fixed,*ssa.MakeClosure)",
+		"slices.ContainsFunc(param0[ι].PackageUpdates,*ssa.MakeClosure)",
+		"slices.ContainsFunc(param0[ι].Fixed,*ssa.MakeClosure)",
 		// the no-introduce option (second half of `noIntroduce && len(patch.Introduced) > 0`)
-		"builtin.len(‹param0[(φ:int+1:int)]›.Introduced) != 0 && param2",
+		"builtin.len(param0[ι].Introduced) != 0 && param2",
 	},
 	// the fixable set and the reported list are built without omissions: loop ends only
 	"guidedremediation.computeVulnsResult": {
-		"builtin.len(param0.ResolvedGraph.Vulns) <= (φ:int+1:int)",
-		"builtin.len(param1) <= (φ:int+1:int)",
-		"builtin.len(‹param1[(φ:int+1:int)]›.Fixed) <= (φ:int+1:int)",
-		"builtin.len(‹param1[(φ:int+1:int)]›.Fixed) <= (φ:int+1:int)",
+		"range-end: param0.ResolvedGraph.Vulns",
+		"range-end: param1",
+		"range-end: param1[ι].Fixed",
+		"range-end: param1[ι].Fixed",
 	},
 	"guidedremediation/internal/strategy/common.ComputePatches": {
 		// all strategy runs have reported
 		"φ:int <= 0:int",
 		// the strategy could not patch these vulnerabilities
-		"nil:error != ‹<-‹*ssa.MakeChan››.Err",
+		"<-*ssa.MakeChan.Err != nil:error",
 		// the strategy changed nothing
-		"builtin.len(‹guidedremediation/internal/remediation.ConstructPatches(‹param1›,‹<-‹*ssa.MakeChan››.Resolved)›.PackageUpdates) == 0",
+		"builtin.len(guidedremediation/internal/remediation.ConstructPatches(param1,<-*ssa.MakeChan.Resolved).PackageUpdates) == 0",
 	},
 }
 
@@ -641,7 +641,7 @@ func c12Diff(p *Prog, r *Report) {
 			wantN[x]++
 		}
 		for x, c := range got {
-			if c > wantN[x] {
+			if _, audited := wantN[x]; !audited && c > 0 {
 				r.Fail(rule, key+":new:"+short(x, 140), p.Pos(fn.Pos()), "a decision that leaves the current element out of the result is not among the audited ones: "+x)
 			} else {
 				r.OK(rule, key+":"+short(x, 140), p.Pos(fn.Pos()), "audited omission")
